@@ -17,6 +17,16 @@
 //! being rebuilt through `FromIterator`/`reshape`/`clone_from`; precisions 0..20 and 31 … 65535 (256, 300, 1074 …); rows of 8191 … 70000
 //! elements and `huge_shapes()` (the model's `display` and literal parse-back are linear: 120 000 elements in about 1 s, so the model itself
 //! answers these); ranks 5..8; every printable ASCII character as char / String element and tuple / list component.
+//! Round-5 streams (classes 16, 19, 20, 21 of the lead's list).  Compiled (`c18_gen`): literals whose items are IMPURE expressions
+//! (`it.next().unwrap()`, `{ n += 1; n }` blocks, `st.pop().unwrap()`, a counting closure) for every arm of `array!` / `array_flat!` /
+//! `array_single!` and the arguments of the constructor macros - each item evaluated exactly once, in reading order, the state the items work
+//! on checked afterwards (`once`); f32 literals whose items lie next to the midpoint of two adjacent f32 values (decimal tokens whose nearest
+//! f64 IS the midpoint, its f64 neighbours, integers 2^k + 2^(k-24) + 1) - every element compared bit-wise with `"<token>".parse::<f32>()`
+//! here and with exact rational rounding done by the generator; constants / integer-valued floats / 2^k +- 1 ulp as f64 and f32 items;
+//! constructor macros on more than 2^24 u8 elements next to their functions, compared in place (`giant_pair`); `array_arange!` with spans
+//! >= 2^32.  Run-time (`gen_r5`): the text form and the typed Tuple2 / Tuple3 / List round trips over dense value pools (`f64k`: constants,
+//! their negatives and reciprocals, every integer-valued float in -1100..=1100; `f64p`: 2^k with one ulp on each side for every k in
+//! -1074..=1023; `f32k`: the same for f32), element texts by the element type's own `Display`.
 use arrharness::*;
 use std::cell::RefCell;
 use std::fmt::{Debug, Display};
@@ -55,6 +65,29 @@ pub fn obs<T: ArrayElement, F: FnOnce() -> Result<Array<T>, ArrayError>>(f: F) -
 /// unless the state the items work on is afterwards not what ONE evaluation of every item leaves behind
 pub fn once(o: Obs, ok: bool, what: &str) -> Obs {
     if ok { o } else { Obs::Err(format!("ITEMS-NOT-EVALUATED-EXACTLY-ONCE: after the literal `{what}` is false (the literal itself gave `{}`)", truncate(&show_obs(&o), 200))) }
+}
+
+/// constructor macros on more than 2^24 elements next to their functions: compared in place, never formatted.  Both sides report the shape
+/// and a summary; the macro's summary names the first position at which it differs from the function
+pub fn giant_pair<T: ArrayElement, M: FnOnce() -> Result<Array<T>, ArrayError>, F: FnOnce() -> Result<Array<T>, ArrayError>>(m: M, f: F) -> (Obs, Obs) {
+    let run = |r: std::thread::Result<Result<Array<T>, ArrayError>>| match r { Ok(Ok(a)) => Ok(a), Ok(Err(e)) => Err(Obs::Err(err_name(&e).to_string())), Err(_) => Err(Obs::Panic) };
+    let a = run(std::panic::catch_unwind(std::panic::AssertUnwindSafe(m)));
+    let b = run(std::panic::catch_unwind(std::panic::AssertUnwindSafe(f)));
+    match (a, b) {
+        (Ok(a), Ok(b)) => {
+            let (sa, sb) = (a.get_shape().unwrap(), b.get_shape().unwrap());
+            let (ea, eb) = (a.get_elements().unwrap(), b.get_elements().unwrap());
+            let diff = if !(consistent(&a) && consistent(&b)) { "elements and shape of one side do not fit".to_string() }
+                else if ea.len() != eb.len() { format!("{} elements", ea.len()) }
+                else { match (0..ea.len()).find(|&i| ea[i] != eb[i]) { Some(i) => format!("element {i} is {:?}", ea[i]), None => String::new() } };
+            let ones = |e: &Vec<T>| { let z = T::zero(); e.iter().filter(|x| **x != z).count() };
+            let summary = |e: &Vec<T>| vec![format!("{} elements", e.len()), format!("{} non-zero", ones(e)), format!("first {:?}", e.first()), format!("last {:?}", e.last())];
+            let (mut ma, mb) = (summary(&ea), summary(&eb));
+            if !diff.is_empty() { ma.push(format!("DIFFERS from the function: {diff}")); }
+            (Obs::Ok(sa, ma), Obs::Ok(sb, mb))
+        }
+        (a, b) => { let o = |r: Result<Array<T>, Obs>| match r { Ok(a) => Obs::Ok(a.get_shape().unwrap(), vec![format!("{} elements", a.len().unwrap_or(0))]), Err(o) => o }; (o(a), o(b)) }
+    }
 }
 
 /// a numeric source token without its type suffix
@@ -214,6 +247,40 @@ fn disp_with<T: ArrayElement>(elems: Vec<T>, shape: &[usize], prec: Option<usize
 
 const F64X: [f64; 12] = [-0.0, 5e-324, 1e300, 0.1, f64::MAX, f64::MIN_POSITIVE, 9007199254740993.0, f64::INFINITY, f64::NEG_INFINITY, f64::NAN, 0.30000000000000004, -1e-7];
 const F32X: [f32; 8] = [0.1, 16777216.0, -0.0, f32::MAX, 1e-45, 1.5, f32::NAN, -2.75];
+/// class-16 value pools (FRAMEWORK.md part 4): the mathematical constants with their negatives and reciprocals, every integer-valued float
+/// in -1100..=1100, then the edges of the exponent range
+fn f64_pool_k() -> Vec<f64> {
+    use std::f64::consts::*;
+    let c = [E, PI, LN_2, LN_10, LOG2_E, LOG10_E, LOG2_10, LOG10_2, SQRT_2, FRAC_1_SQRT_2, FRAC_PI_2, FRAC_PI_3, FRAC_PI_4, FRAC_PI_6, FRAC_PI_8, FRAC_1_PI, FRAC_2_PI, FRAC_2_SQRT_PI, TAU,
+        f64::EPSILON, f64::MIN_POSITIVE, f64::MAX, 5e-324, 0.1, 0.2, 0.3, 1.0 / 3.0, 2.0 / 3.0, 1e15, 1e16, 1e17, 1e21, 1e22, 1e23, 1e-4, 1e-5, 1e-7, 4503599627370496.5, 9007199254740993.0, 0.5, 1.5, 2.5, 0.125];
+    let mut v = vec![];
+    for x in c { v.push(x); v.push(-x); if (1.0 / x).is_finite() { v.push(1.0 / x); } }
+    for i in -1100..=1100 { v.push(if i == 0 { -0.0 } else { i as f64 }); }
+    v.push(0.0);
+    v
+}
+/// 2^k with one ulp on each side for every k of the f64 exponent range (-1074..=1023; the requested -1080..=1030 clipped to what exists), ordered
+/// k = 0, -1, 1, -2, 2 … and so that the first third holds every k once (the side rotates with k)
+fn f64_pool_p() -> Vec<f64> {
+    let ks: Vec<i32> = (0..=1074).flat_map(|j| if j == 0 { vec![0] } else { vec![-j, j] }).filter(|k| (-1074..=1023).contains(k)).collect();
+    let mut v = vec![];
+    for r in 0..3 { for (i, &k) in ks.iter().enumerate() {
+        let b = (2.0f64).powi(k).to_bits();
+        v.push(f64::from_bits(match (i + r) % 3 { 0 => b, 1 => b + 1, _ => b.saturating_sub(1) }));
+    } }
+    v
+}
+/// the same for f32: constants, -1100..=1100, 2^k with one ulp on each side for k = -149..=127
+fn f32_pool() -> Vec<f32> {
+    use std::f32::consts::*;
+    let c = [E, PI, LN_2, LN_10, LOG2_E, LOG10_E, SQRT_2, FRAC_1_SQRT_2, FRAC_PI_2, FRAC_PI_4, FRAC_1_PI, TAU, f32::EPSILON, f32::MIN_POSITIVE, f32::MAX, 1e-45, 0.1, 0.3, 1.0 / 3.0, 16777216.0, 16777218.0, 1e-4, 1e-5, 1e16, 1e7, 0.5, 2.5];
+    let mut v = vec![];
+    for x in c { v.push(x); v.push(-x); if (1.0 / x).is_finite() { v.push(1.0 / x); } }
+    for k in -149..=127 { let b = (2.0f64).powi(k) as f32; let b = b.to_bits(); v.push(f32::from_bits(b)); v.push(f32::from_bits(b + 1)); v.push(f32::from_bits(b.saturating_sub(1))); }
+    for i in -1100..=1100 { v.push(if i == 0 { -0.0 } else { i as f32 }); }
+    v
+}
+
 const BLANKY: [&str; 8] = ["new york", "", " ", "a b c", "x", " lead", "trail ", "mid  dle"];
 
 /// `ty` may carry a rearrangement of the elements: `i32~x` (the elements of the transpose poured into the same shape; rank != 2: reversed),
@@ -244,6 +311,9 @@ fn disp_subject(ty: &str, shape: &[usize], prec: Option<usize>, alt: bool, rende
         "usize" => disp_with((0..n).map(&km).map(|k| [usize::MAX, 0, 1001, 4096][k % 4].wrapping_sub(k / 4)).collect::<Vec<usize>>(), shape, prec, alt, render),
         "f32" => disp_with((0..n).map(&km).map(|k| F32X[k % 8] * (1 + k / 8) as f32).collect::<Vec<f32>>(), shape, prec, alt, render),
         "f64x" => disp_with((0..n).map(&km).map(|k| F64X[k % 12] * (1 + k / 12) as f64).collect::<Vec<f64>>(), shape, prec, alt, render),
+        "f64k" => { let p = f64_pool_k(); disp_with((0..n).map(&km).map(|k| p[k % p.len()]).collect::<Vec<f64>>(), shape, prec, alt, render) }
+        "f64p" => { let p = f64_pool_p(); disp_with((0..n).map(&km).map(|k| p[k % p.len()]).collect::<Vec<f64>>(), shape, prec, alt, render) }
+        "f32k" => { let p = f32_pool(); disp_with((0..n).map(&km).map(|k| p[k % p.len()]).collect::<Vec<f32>>(), shape, prec, alt, render) }
         "T3s" => disp_with((0..n).map(&km).map(|k| Tuple3(BLANKY[k % 8].to_string(), k as i32 * sgn(k), F64X[(k / 8) % 12])).collect::<Vec<_>>(), shape, prec, alt, render),
         "ListS" => disp_with((0..n).map(&km).map(|k| List((0..k % 3).map(|j| BLANKY[(k + j) % 8].to_string()).collect())).collect::<Vec<_>>(), shape, prec, alt, render),
         _ => return None,
@@ -518,6 +588,7 @@ fn front_end_lines(s: &[usize], rng: &mut Rng, out: &mut dyn FnMut(String)) {
 
 const COMBOS: [(&str, usize); 6] = [("none", 0), ("2", 1), ("none", 1), ("2", 0), ("0", 0), ("0", 1)];
 const DISP_TYPES_X: [&str; 2] = ["charx", "Stringx"];
+const DISP_TYPES_R5: [&str; 3] = ["f64k", "f64p", "f32k"];          // the value pools of round 5 (used by gen_r5 only: the older streams stay as they were)
 
 fn gen_r3(tier: &str, seed: u64, out: &mut dyn FnMut(String)) {
     let thorough = tier == "thorough";
@@ -629,6 +700,50 @@ fn gen_r3(tier: &str, seed: u64, out: &mut dyn FnMut(String)) {
     for e in 0..4 { let (prec, alt) = COMBOS[e]; out(seq_line(&[disp_line("i32", &[2, 2], prec, alt), format!("disperr {e} {alt} {prec}"), disp_line("i32", &[2, 2], prec, alt), disp_line("f64", &[3], prec, alt)])); }
 }
 
+/// round-5 streams (FRAMEWORK.md part 4, classes 16 and 19-21 as far as they concern literals and text forms).  The compiled programs of
+/// class 19 (impure items, f32 items next to a midpoint), class 20 (constructor macros above 2^24 elements) and class 21 (integer
+/// constructor arguments with a span >= 2^32) are entries of `c18_gen` and come with the `lit` / `ctor` lines of the base generator
+fn gen_r5(tier: &str, seed: u64, out: &mut dyn FnMut(String)) {
+    let thorough = tier == "thorough";
+    let mut rng = Rng::new(seed ^ 0x18_0005);
+    // ---- class 16: dense value pools through the text form (element texts by the element type's own Display = the native oracle)
+    let (nk, np, nf) = (f64_pool_k().len(), f64_pool_p().len(), f32_pool().len());
+    for (ty, n) in [("f64k", nk), ("f64p", np / 3), ("f32k", nf)] {
+        for (prec, alt) in [("none", 0), ("17", 0), ("2", 1), ("0", 0)] { out(disp_line(ty, &[n], prec, alt)); }
+        out(disp_line(ty, &[3, n / 3], "none", 1)); out(disp_line(ty, &[n / 7, 7], "3", 0));
+        for s in [vec![3usize], vec![2, 2], vec![2, 3, 2], vec![64], vec![8, 9], vec![300]] { for (prec, alt) in COMBOS { out(disp_line(ty, &s, prec, alt)); } }
+        for p in ["1", "5", "9", "16", "17", "18", "20", "30", "255", "1074"] { out(disp_line(ty, &[40], p, 0)); out(disp_line(ty, &[4, 10], p, 1)); }
+        // the same shape with its elements in other places, back to back
+        for (v, var) in ["x", "r", "t", "s"].iter().enumerate() { let (prec, alt) = COMBOS[v]; let s = [5usize, 7];
+            let (a, b) = (disp_line(ty, &s, prec, alt), disp_line(&format!("{ty}~{var}"), &s, prec, alt)); out(seq_line(&[a.clone(), b, a])); }
+    }
+    out(disp_line("f64p", &[3, np / 3], "none", 0));
+    if thorough { out(disp_line("f64p", &[np], "17", 0)); out(disp_line("f64p", &[np / 3, 3], "1", 1)); }
+    // seeded windows of the pools under seeded precisions
+    for _ in 0..(if thorough { 120 } else { 24 }) {
+        let ty = *rng.pick(&DISP_TYPES_R5); let n = 2 + rng.below(500);
+        let s = if rng.below(2) == 0 { vec![n] } else { vec![1 + rng.below(4), n / 2 + 1] };
+        let p = rng.below(25).to_string();
+        out(disp_line(ty, &s, if rng.below(4) == 0 { "none" } else { p.as_str() }, rng.below(2)));
+    }
+    // pairs, triples and lists of the pool values: value -> text -> value on the real typed Tuple2 / Tuple3 / List (f64: combos 0, 7; lists 3, 4)
+    let show64 = |v: &[f64]| v.iter().map(|x| x.to_string()).collect::<Vec<_>>();
+    let show32 = |v: &[f32]| v.iter().map(|x| x.to_string()).collect::<Vec<_>>();
+    let (pk, pp, pf) = (show64(&f64_pool_k()), show64(&f64_pool_p()), show32(&f32_pool()));
+    for chunk in pk.chunks(300).chain(pp.chunks(if thorough { 300 } else { 700 })) { out(format!("lrt_t 3 {}", enc_list(chunk))); }
+    for chunk in pf.chunks(300) { out(format!("lrt_t 4 {}", enc_list(chunk))); }
+    let stride = if thorough { 1 } else { 16 };
+    for (i, a) in pk.iter().enumerate().filter(|(i, _)| *i < 140 || i % stride == 0).chain(pp.iter().enumerate().filter(|(i, _)| i % (stride * 4) == 0)) {
+        out(format!("t2rt_t 0 {} {}", enc(["0", "-1", "9007199254740993"][i % 3]), enc(a)));
+        out(format!("t2rt_t 7 {} {}", enc(a), enc(BLANKY[i % 8])));
+        out(format!("t3rt_t 5 {} {} {}", enc(a), enc(&pk[(i * 7 + 1) % pk.len()]), enc(BLANKY[(i + 3) % 8])));
+    }
+    for (i, a) in pf.iter().enumerate().filter(|(i, _)| *i < 80 || i % stride == 0) {
+        out(format!("t2rt_t 2 {} {}", enc(a), enc(if i % 2 == 0 { "true" } else { "false" })));
+        out(format!("t3rt_t 1 {} {} {}", enc(["0", "255", "128"][i % 3]), enc(["-128", "127", "0"][i % 3]), enc(a)));
+    }
+}
+
 fn gen(tier: &str, seed: u64, out: &mut dyn FnMut(String)) {
     // the streams of rounds 1 and 2, unchanged, then the part-2 streams.  Two `tally` lines: one placed where the summary's sampler
     // picks its last sample (so the counters show in the evidence file), one at the very end
@@ -637,6 +752,7 @@ fn gen(tier: &str, seed: u64, out: &mut dyn FnMut(String)) {
     // the part-2 streams go in front of the last quarter of the older streams (the exhaustive malformed texts), so that the first tally line sees them
     let tail = lines.split_off(lines.len() * 3 / 4);
     gen_r3(tier, seed, &mut |l| lines.push(l));
+    gen_r5(tier, seed, &mut |l| lines.push(l));
     lines.extend(tail);
     let n = lines.len() + 2;
     let pos = (11 * (n / 12).max(1)).min(lines.len());
@@ -894,5 +1010,5 @@ fn nontrivial(op: &str, args: &[&str]) -> bool {
 
 fn main() {
     harness_main(Spec { prop: "C18", gen, exec, nontrivial, hang_secs: 30,
-        rule: "compiled programs: every literal of c18_gen (all shapes rank<=4 len<=3 for i32; rank<=4 len<=2 + some 3/4 for f64,bool,char,String,Tuple2,Tuple3,List; u8,i8,i16,u16,u32,i64,u64,usize,isize,f32 and f64 specials with the extreme values of the type on 12 shapes each; axis lengths 7..17 in every position, 256..1200-element literals; multi-argument and flat forms; separator/escape element texts; tuple/list String components with blanks and empty strings) + constructor/flat/single macros next to their functions; run-time: front-end macros on Debug texts of all shapes rank<=4 (len<=2 quick, <=3 thorough) + seeded random rank<=5 len<=4, exhaustive malformed texts over small alphabets; Display on every shape rank<=4 len<=3 (+empty, rank 0) x 16 element types (i32,f64,bool,char,String,Tuple2,List,u8,i8,i64,u64,usize,f32, f64 specials, Tuple3<String,..>, List<String>) x precision none/0/2 x plain/alternate, each through BOTH receivers (Array and the PrintableResult wrapper of Result<Array,_>, Ok and Err side), + big_shapes() and rows of 999..2000 elements / more than 1000 rows / totals above 1000 from short rows, + zero_shapes(), + seeded shapes with one axis up to 1100; Tuple/List text forms exhaustively over a 7-letter alphabet + components with blanks / empty / 300 characters + lists of 17/300/1030 items + typed round trips (9 Tuple2, 7 Tuple3, 13 List instantiations over the value classes of every primitive type); front-end macros also on big_shapes() up to 320 (thorough 1300) elements, [1030] and zero_shapes(). Part-2 streams: precisions 0..20, 31..33, 63..65, 100, 127..129, 200, 253..258, 300, 511..513, 1000, 1023, 1024, 1074, 1075, 1100, 4095, 4096 on f64 / f64 specials / f32 / Tuple2 / Tuple3 arrays plus one rotating further type, 1/3/5/255/256/300/1074 on all 18 element types, 32767/32768/65535 on float arrays, plain and pretty, both receivers; rows of 8191, 8192, 8193, 8194, 10000, 16384, 16385, 24577, 33000, 70000 elements, [2,8193], [2,10000], [1,1,8193], [8193,1], [8193,2], [3,2,20011] and huge_shapes() (the model answers itself: linear), [70000,2] thorough only; ranks 5..8 for the text form (18 types) and the run-time front ends; every printable ASCII character as char element, one-character String, tuple component and list item (charx / Stringx display subjects, rt char / rt string, t2/t3/list show and round trips, typed round trips for non-separator characters); seq lines = cases back to back on one thread (an array, then the same shape with its elements transposed / reversed / rotated / swapped, then the array again, 12 shapes x 18 types; collision_shape_pairs() in both orders; one shape through 12 element types; a refused text followed by a valid one for every front end, array_parse_shape!, the tuple / list parsers and the Err side of the wrapper); in exec every case A is re-run after the next case B, every array is rendered twice and once more after being rebuilt by collect + reshape + clone_from; compiled literals of ranks 5..8 and of every letter / digit / punctuation character. distinct = distinct case lines; non-trivial = >=2 axes longer than 1 (lit, disp), text of >= 8 characters (rt, shape), any argument of >= 2 characters (text forms)" });
+        rule: "compiled programs: every literal of c18_gen (all shapes rank<=4 len<=3 for i32; rank<=4 len<=2 + some 3/4 for f64,bool,char,String,Tuple2,Tuple3,List; u8,i8,i16,u16,u32,i64,u64,usize,isize,f32 and f64 specials with the extreme values of the type on 12 shapes each; axis lengths 7..17 in every position, 256..1200-element literals; multi-argument and flat forms; separator/escape element texts; tuple/list String components with blanks and empty strings) + constructor/flat/single macros next to their functions; run-time: front-end macros on Debug texts of all shapes rank<=4 (len<=2 quick, <=3 thorough) + seeded random rank<=5 len<=4, exhaustive malformed texts over small alphabets; Display on every shape rank<=4 len<=3 (+empty, rank 0) x 16 element types (i32,f64,bool,char,String,Tuple2,List,u8,i8,i64,u64,usize,f32, f64 specials, Tuple3<String,..>, List<String>) x precision none/0/2 x plain/alternate, each through BOTH receivers (Array and the PrintableResult wrapper of Result<Array,_>, Ok and Err side), + big_shapes() and rows of 999..2000 elements / more than 1000 rows / totals above 1000 from short rows, + zero_shapes(), + seeded shapes with one axis up to 1100; Tuple/List text forms exhaustively over a 7-letter alphabet + components with blanks / empty / 300 characters + lists of 17/300/1030 items + typed round trips (9 Tuple2, 7 Tuple3, 13 List instantiations over the value classes of every primitive type); front-end macros also on big_shapes() up to 320 (thorough 1300) elements, [1030] and zero_shapes(). Part-2 streams: precisions 0..20, 31..33, 63..65, 100, 127..129, 200, 253..258, 300, 511..513, 1000, 1023, 1024, 1074, 1075, 1100, 4095, 4096 on f64 / f64 specials / f32 / Tuple2 / Tuple3 arrays plus one rotating further type, 1/3/5/255/256/300/1074 on all 18 element types, 32767/32768/65535 on float arrays, plain and pretty, both receivers; rows of 8191, 8192, 8193, 8194, 10000, 16384, 16385, 24577, 33000, 70000 elements, [2,8193], [2,10000], [1,1,8193], [8193,1], [8193,2], [3,2,20011] and huge_shapes() (the model answers itself: linear), [70000,2] thorough only; ranks 5..8 for the text form (18 types) and the run-time front ends; every printable ASCII character as char element, one-character String, tuple component and list item (charx / Stringx display subjects, rt char / rt string, t2/t3/list show and round trips, typed round trips for non-separator characters); seq lines = cases back to back on one thread (an array, then the same shape with its elements transposed / reversed / rotated / swapped, then the array again, 12 shapes x 18 types; collision_shape_pairs() in both orders; one shape through 12 element types; a refused text followed by a valid one for every front end, array_parse_shape!, the tuple / list parsers and the Err side of the wrapper); in exec every case A is re-run after the next case B, every array is rendered twice and once more after being rebuilt by collect + reshape + clone_from; compiled literals of ranks 5..8 and of every letter / digit / punctuation character. Round-5 streams: 73 compiled literals with impure items (iterator next / counter block / Vec pop / counting closure; i32,i64,u8,f64,bool,char,String,Tuple2,Tuple3,List incl. String components; nested ranks 1..3, multi-argument, flat) + 37 single / constructor macros with impure arguments, each item evaluated exactly once in reading order and the items' state checked afterwards; f32 literals of 243 decimal tokens next to the midpoint of two adjacent f32 values (64 pairs over the whole exponent range incl. subnormals and f32::MAX/inf; the shortest text of the midpoint, a 21-digit text, both f64 neighbours) and integers 2^k + 2^(k-24) + 1, 2^k + 3*2^(k-24) - 1 for k = 24..127 (i32 / i64 / u64 / u128 / negative i128 tokens), f32 components of pairs / triples / list items, every element bit-equal to the token read by str::parse::<f32>; f64 and f32 literals of constants, integer-valued floats and 2^k +- 1 ulp; array_zeros!/ones!/full!/eye!/identity! on 16777216..16974593 u8 elements ([16777217], [4097,4097], [2,8388609], [257,257,257]) compared in place with the functions; array_arange! with spans 2^32..2^63 and steps up to 2^60 on i64/u64/f64; Display and typed Tuple2/Tuple3/List round trips over the value pools f64k (constants, negatives, reciprocals, every integer-valued float in -1100..=1100), f64p (2^k and its two neighbours for every k in -1074..=1023) and f32k (the same for f32, k = -149..=127) under precisions none/0/1/2/3/5/9/16/17/18/20/30/255/1074 and seeded ones. distinct = distinct case lines; non-trivial = >=2 axes longer than 1 (lit, disp), text of >= 8 characters (rt, shape), any argument of >= 2 characters (text forms)" });
 }
